@@ -342,6 +342,7 @@ func (m *FieldMap) getOrCreate(tag Tag) field {
 
 	if f, ok := m.tagLookup[tag]; ok {
 		f = f[:1]
+		m.tagLookup[tag] = f
 		return f
 	}
 
